@@ -2,7 +2,7 @@
 from verif import *
 from props.routers import *
 
-THEOREMS = ['c10_single_bound', 'c10_error_code_is_replier_already_bound', 'c10_refused_replier_told_then_closed', 'c10_bound_replier_leaves_only_by_departure', 'c10_rejection_never_left_waiting', 'c10_registrations_placed_exactly_once', 'c10_replier_decision']
+THEOREMS = ['c10_single_bound', 'c10_error_code_is_replier_already_bound', 'c10_refused_replier_told_then_closed', 'c10_bound_replier_leaves_only_by_departure', 'c10_rejection_never_left_waiting', 'c10_registrations_placed_exactly_once', 'c10_roles_pairwise_distinct', 'c10_replier_decision']
 
 
 def run(tier, seed, replay=None):
